@@ -533,7 +533,9 @@ def gen_meridian(rng, n):
              'pole-end', 'pole-pole', 'equator']
     fixed = [((0.0, 80.0), (180.0, 75.0)), ((0.0, 75.0), (180.0, 80.0)), ((-90.0, -80.0), (90.0, -75.0)),
              ((-170.0, -75.0), (10.0, -40.0)), ((0.0, 10.0), (180.0, 20.0)), ((0.0, 10.0), (-180.0, -20.0)),
-             ((25.0, 90.0), (-155.0, 10.0)), ((25.0, -90.0), (25.0, 10.0)), ((25.0, 10.0), (-155.0, 90.0))]
+             ((25.0, 90.0), (-155.0, 10.0)), ((25.0, -90.0), (25.0, 10.0)), ((25.0, 10.0), (-155.0, 90.0)),
+             # D53 regression: the round trip onto a pole (asin argument rounds to 1 + 2^-52)
+             ((101.75, 84.78966189864929), (101.75, 90.0)), ((-20.5, -80.25), (159.5, -90.0)), ((-63.0, -12.0), (117.0, 90.0))]
     for p, q in fixed:
         out.append(('fixed', p, q))
     i = 0
@@ -678,7 +680,7 @@ def run_form_case(case, rng, stats, count):
     pos = {k: canon(*v) for k, v in fl.items()}
     o, p, q = pos['o'], pos['p'], pos['q']
     b, d, a, z, m = case['bearing'], case['distance'], case['angle'], case['z'], case['m']
-    a2 = rng.uniform(-180, 180)
+    a2 = case['angle2'] if 'angle2' in case else rng.uniform(-180, 180)
     back = {}                                         # canonical position -> its text (last wins when two coincide)
     for k in ('q', 'o', 'p'):
         back[pos[k]] = txt[k]
@@ -801,9 +803,6 @@ def oracle_pair(p, q, obs, rng, stats):
     return bad
 
 
-ASIN_DOMAIN = []
-
-
 def oracle_roundtrip(p, q, obs, stats, mk=C):
     """bearing - distance - destination round trip: travelling haversine(p,q) from p on bearing(p,q) ends at q
     (2 cm + the 1e-7 deg rounding of the destination + float conditioning next to the antipode / a pole)"""
@@ -819,20 +818,15 @@ def oracle_roundtrip(p, q, obs, stats, mk=C):
         return []
     got = guarded(lambda: inverse_haversine_degrees(mk(p), b13, h))
     if got[0] != 'Ok':
-        if got[1] == 'ValueError' and HALF / 2 - abs(R_EARTH * math.radians(p[1]) + h * math.cos(math.radians(b13))) < 0.5 \
-                and min(cdiff(b13, 0), cdiff(b13, 180)) < 1e-6:
-            # REPORTED (unchanged code): travelling exactly onto a pole, the asin argument rounds to 1 + 2^-52 and
-            # math.asin raises.  Counted, first input kept for the coverage record; see main(): KNOWN-FINDING when
-            # KNOWN_FINDINGS.json lists signature dest_onto_pole_asin_domain
-            stats['roundtrip-onto-pole-asin-domain'] = stats.get('roundtrip-onto-pole-asin-domain', 0) + 1
-            ASIN_DOMAIN.append({'p': p, 'bearing': b13, 'distance': h})
-            return []
+        # D53 regression (repaired in /repo 6babd5c): travelling exactly onto a pole used to raise (asin of 1 + 2^-52)
         return [('roundtrip', f'inverse_haversine_degrees raised {got[1]}')]
     dd = (got[1].longitude, got[1].latitude)
     off = great_circle_ref(dd, q)[0]
     colat = math.radians(90 - abs(dd[1]))
     colat_p = math.radians(90 - abs(p[1]))       # a start within metres of a pole: its cos(lat) carries ~1e-16 absolute noise
-    tol = (0.02 + 2 * dist_tol(p, q) + R_EARTH * 4.5e-16 / max(colat, 1e-9) + R_EARTH * 4.5e-16 / max(colat_p, 1e-9)
+    # asin next to a pole: an argument error e moves the colatitude by min(sqrt(2e), e/colat) (<= 0.19 m; measured 0.133 m
+    # for destinations that are the pole itself - D53 regression: they must be reached, not raise)
+    tol = (0.02 + 2 * dist_tol(p, q) + R_EARTH * min(3e-8, 4.5e-16 / max(colat, 1e-300)) + R_EARTH * 4.5e-16 / max(colat_p, 1e-9)
            + R_EARTH * math.radians(1e-8 * hv + 1e-12))
     if off > tol:
         return [('roundtrip', f'travelling d(p,q)={h!r} m from p on bearing(p,q)={b13!r} ends at {dd!r}, {off!r} m from q')]
@@ -1050,17 +1044,6 @@ def main():
             if reproduces:
                 ck.known(f)
 
-    if ASIN_DOMAIN:
-        ck.cov['dest_onto_pole_asin_domain'] = {'count': len(ASIN_DOMAIN), 'first': ASIN_DOMAIN[0],
-                                                'note': 'inverse_haversine raises ValueError (asin argument 1+2^-52) when the '
-                                                        'destination is a pole; reported, excluded from the round trip'}
-    for f in ck.findings:
-        if f.get('status') == 'open' and f.get('signature') == 'dest_onto_pole_asin_domain':
-            fr = f['replay']
-            got = guarded(lambda: inverse_haversine_degrees(C(canon(*fr['p'])), float(fr['bearing']), float(fr['distance'])))
-            if got == ('Err', 'ValueError'):
-                ck.known(f)
-
     per_file = max(8, -(-len(lemmas) // 14))
     badk, broken = run_lemmas(ck, 'sphere', lemmas, per_file)
 
@@ -1140,7 +1123,7 @@ def replay(path):
         print('property clauses violated now:', oracle_dest(p, m['bearing'], m['distance'], obs, {}))
     elif k == 'form':
         import random
-        case = {k_: m[k_] for k_ in ('text', 'bearing', 'distance', 'angle', 'z', 'm')}
+        case = {k_: m[k_] for k_ in ('text', 'bearing', 'distance', 'angle', 'angle2', 'z', 'm')}
         case['text'] = {k_: tuple(v) for k_, v in case['text'].items()}
         got = run_form_case(case, random.Random(0), {}, lambda c: None)
         print(f'violations of this input-form case now: {len(got)}')
